@@ -57,6 +57,20 @@ type Consts struct {
 	OpTo       string           `json:"OpTo"`
 	InitCoins  map[string]int64 `json:"InitCoins"`
 	MinDeposit int64            `json:"MinDeposit"`
+	UnbondH    int64            `json:"UnbondH"`
+	DepositH   int64            `json:"DepositH"`
+	VotingH    int64            `json:"VotingH"`
+}
+
+// epochKey carries, in the context, the instant the model's hour 0 corresponds to (TimePasses moves it along with
+// the block time, so that the model's clock does not advance by a jump after which nothing time-dependent is left).
+type epochKey struct{}
+
+func epoch(ctx sdk.Context) time.Time {
+	if v, ok := ctx.Value(epochKey{}).(time.Time); ok {
+		return v
+	}
+	return baseTime
 }
 
 type Adapter struct {
@@ -150,13 +164,20 @@ func New(t *testing.T, c Consts) *Adapter {
 	gp.ExpeditedMinDeposit = sdk.NewCoins(fx(c.MinDeposit * 5))
 	gp.MinInitialDepositRatio = "0"
 	gp.MinDepositRatio = "0"
-	dp, vp, evp := 48*time.Hour, 96*time.Hour, 24*time.Hour
+	if c.DepositH == 0 {
+		c.DepositH, c.VotingH = 48, 96
+	}
+	a.C = c
+	dp, vp, evp := time.Duration(c.DepositH)*time.Hour, time.Duration(c.VotingH)*time.Hour, 24*time.Hour
 	gp.MaxDepositPeriod, gp.VotingPeriod, gp.ExpeditedVotingPeriod = &dp, &vp, &evp
 	must(w.Handle(ctx, &govv1.MsgUpdateParams{Authority: world.GovAddr(), Params: gp}))
 
 	a.ut, err = w.App.StakingKeeper.UnbondingTime(ctx)
 	must(err)
 	a.passHrs = int64(a.ut/time.Hour) + 2
+	if a.ut%time.Hour != 0 || (c.UnbondH != 0 && c.UnbondH != int64(a.ut/time.Hour)) {
+		panic(fmt.Sprintf("unbonding period %v differs from the model's UnbondH=%d", a.ut, c.UnbondH))
+	}
 	if vp >= a.ut {
 		panic("voting period must be shorter than the unbonding period")
 	}
@@ -231,10 +252,29 @@ func (a *Adapter) Apply(ctx sdk.Context, op graph.Op) (out sdk.Context, res stri
 	case "TimePasses":
 		// a block beyond the unbonding period (and beyond deposit and voting periods): the application's real end blocker
 		out = nextBlock(ctx, time.Duration(a.passHrs)*time.Hour)
+		out = out.WithValue(epochKey{}, epoch(ctx).Add(time.Duration(a.passHrs)*time.Hour))
 		err = world.Atomic(out, func(c sdk.Context) error {
 			_, e := w.App.EndBlocker(c)
 			return e
 		})
+	case "BeginBlockExact":
+		// a new block whose time is exactly the completion time of the oldest entry that is not yet mature; no end blocker
+		next, found := a.oldestPending(ctx)
+		if !found {
+			return ctx, "rej"
+		}
+		out = nextBlock(ctx, next.Sub(ctx.BlockTime()))
+	case "BeginBlockLater":
+		out = nextBlock(ctx, time.Duration(a.passHrs)*time.Hour)
+	case "EndBlock":
+		// the application's real end blocker at the current block time
+		err = world.Atomic(ctx, func(c sdk.Context) error {
+			_, e := w.App.EndBlocker(c)
+			return e
+		})
+		if err != nil {
+			panic(fmt.Sprintf("end blocker failed: %v", err))
+		}
 	case "SubmitProposal":
 		var m *govv1.MsgSubmitProposal
 		m, err = govv1.NewMsgSubmitProposal(nil, sdk.NewCoins(fx(1)), a.bech(op.Str("a")), "text proposal", "C14", "text proposal of "+op.Str("a"), false)
@@ -263,6 +303,29 @@ func (a *Adapter) Apply(ctx sdk.Context, op graph.Op) (out sdk.Context, res stri
 		return ctx, "rej"
 	}
 	return out, "ok"
+}
+
+// oldestPending returns the earliest completion time, after the current block time, of any unbonding or
+// redelegation entry in the staking store.
+func (a *Adapter) oldestPending(ctx sdk.Context) (best time.Time, found bool) {
+	cdc := a.W.App.AppCodec()
+	sst := ctx.KVStore(a.W.App.GetKey(stakingtypes.StoreKey))
+	see := func(t time.Time) {
+		if t.After(ctx.BlockTime()) && (!found || t.Before(best)) {
+			best, found = t, true
+		}
+	}
+	prefixIter(sst, stakingtypes.UnbondingDelegationKey, func(_, v []byte) {
+		for _, e := range stakingtypes.MustUnmarshalUBD(cdc, v).Entries {
+			see(e.CompletionTime)
+		}
+	})
+	prefixIter(sst, stakingtypes.RedelegationKey, func(_, v []byte) {
+		for _, e := range stakingtypes.MustUnmarshalRED(cdc, v).Entries {
+			see(e.CompletionTime)
+		}
+	})
+	return best, found
 }
 
 func (a *Adapter) nm(b []byte) string {
@@ -299,9 +362,8 @@ func units(x sdkmath.Int) int64 {
 	return x.Quo(unit).Int64()
 }
 
-func (a *Adapter) slot(completion time.Time) int64 {
-	h := int64(completion.Add(-a.ut).Sub(baseTime) / time.Hour)
-	return ((h % a.passHrs) + a.passHrs) % a.passHrs
+func (a *Adapter) slot(ctx sdk.Context, completion time.Time) int64 {
+	return int64(completion.Add(-a.ut).Sub(epoch(ctx)) / time.Hour)
 }
 
 type pairKey = collections.Pair[uint64, sdk.AccAddress]
@@ -418,7 +480,7 @@ func (a *Adapter) Project(ctx sdk.Context) any {
 			idOwner[e.UnbondingId] = string(k)
 			if m, ok := ubd[dn]; ok {
 				if _, ok2 := m[vn]; ok2 {
-					m[vn] = append(m[vn], entry{units(e.Balance), a.slot(e.CompletionTime)})
+					m[vn] = append(m[vn], entry{units(e.Balance), a.slot(ctx, e.CompletionTime)})
 				}
 			}
 		}
@@ -454,7 +516,7 @@ func (a *Adapter) Project(ctx sdk.Context) any {
 			if m, ok := red[dn]; ok {
 				if m2, ok2 := m[sn]; ok2 {
 					if _, ok3 := m2[tn]; ok3 {
-						m2[tn] = append(m2[tn], entry{units(e.InitialBalance), a.slot(e.CompletionTime)})
+						m2[tn] = append(m2[tn], entry{units(e.InitialBalance), a.slot(ctx, e.CompletionTime)})
 					}
 				}
 			}
@@ -617,13 +679,23 @@ func (a *Adapter) Project(ctx sdk.Context) any {
 		for _, x := range a.Addrs {
 			dep[x], vote[x] = 0, false
 		}
-		pr := map[string]any{"phase": "closed", "proposer": "none", "dep": dep, "vote": vote}
+		pr := map[string]any{"phase": "closed", "t": int64(0), "proposer": "none", "dep": dep, "vote": vote}
 		if p, err := app.GovKeeper.Proposals.Get(ctx, id); err == nil {
 			switch p.Status {
 			case govv1.StatusDepositPeriod:
 				pr["phase"] = "deposit"
+				if p.SubmitTime != nil && p.DepositEndTime != nil && p.DepositEndTime.Sub(*p.SubmitTime) == time.Duration(a.C.DepositH)*time.Hour {
+					pr["t"] = int64(p.SubmitTime.Sub(epoch(ctx)) / time.Hour)
+				} else {
+					pr["t"] = int64(-1)
+				}
 			case govv1.StatusVotingPeriod:
 				pr["phase"] = "voting"
+				if p.VotingStartTime != nil && p.VotingEndTime != nil && p.VotingEndTime.Sub(*p.VotingStartTime) == time.Duration(a.C.VotingH)*time.Hour {
+					pr["t"] = int64(p.VotingStartTime.Sub(epoch(ctx)) / time.Hour)
+				} else {
+					pr["t"] = int64(-1)
+				}
 			}
 			if pr["phase"] != "closed" {
 				pr["proposer"] = a.nmBech(p.Proposer)
@@ -699,10 +771,10 @@ func (a *Adapter) Project(ctx sdk.Context) any {
 	if debug && (len(bad) > 0 || len(qbad) > 0 || len(left) > 0) {
 		fmt.Println("DEBUG idxBad:", bad, "qBad:", qbad, "leftover:", left)
 	}
-	hours := int64(ctx.BlockTime().Sub(baseTime) / time.Hour)
+	hours := int64(ctx.BlockTime().Sub(epoch(ctx)) / time.Hour)
 	return map[string]any{
 		"coins": coins, "rwd": rwd, "deleg": deleg, "pend": pend, "ubd": ubd, "red": red,
-		"migTo": migTo, "migFrom": migFrom, "props": props, "now": hours % a.passHrs,
+		"migTo": migTo, "migFrom": migFrom, "props": props, "now": hours,
 		"vtok": vtok, "bonded": units(a.modBal(ctx, stakingtypes.BondedPoolName).Sub(a.baseBond)),
 		"unbonding": units(a.modBal(ctx, stakingtypes.NotBondedPoolName).Sub(a.baseUnb)),
 		"govBal":    units(a.modBal(ctx, govtypes.ModuleName).Sub(a.baseGov)),
